@@ -170,7 +170,7 @@ def programs_nf(tier, seed):
         plan_n = [("join_async", (1, 1), 2, False, False), ("try_join_async", (1, 1), 2, False, False), ("join_async", (1, 1, 1), 2, True, False), ("try_join_async", (1, 1, 1), 1, True, False),
                   ("join_async_spawn", (1, 1), 2, True, False), ("try_join_async_spawn", (1, 1), 1, False, False), ("join_async_spawn", (1, 1, 1), 1, True, False),
                   ("async_spawn", (1, 1), 1, False, False), ("try_async_spawn", (1, 1), 1, False, False),
-                  ("join_async", (2, 1), 1, True, False), ("join_async", (2, 2), 1, True, False), ("try_join_async", (2, 1), 1, True, False), ("join_async", (1, 2), 1, True, False),
+                  ("join_async", (2, 1), 1, True, False), ("join_async", (2, 2), 1, True, True), ("try_join_async", (2, 1), 1, True, False), ("join_async", (1, 2), 1, True, False),
                   ("join_async", (1,), 2, False, False), ("join_async", (2,), 1, False, False)]
         plan_f = [("join_async", 2, False), ("try_join_async", 2, False), ("join_async", 3, True), ("try_join_async", 3, True)]
     for macro, prof, gates, heavy, cheap in plan_n:
